@@ -36,7 +36,8 @@ PROBES = ['multi_chunk_read', 'overlap_iteration_served', 'tensor_name_read',
           'per_proc_layout', 'grouped_layout', 'unknown_group_scan',
           'enum_permuted', 'numbering_permuted', 'join_direct',
           'P_ge_10', 'three_chunks', 'two_chunks', 'skip_last_default',
-          'stride_change']
+          'stride_change', 'checkpoint_read', 'phase_offset_outputs',
+          'checkpoint_arrays_compared']
 COMPONENTS = {
     'aurel.reading (iterations, get_content, read_data/read_ET_data, '
     'read_ET_variables, read_ET_group_or_var, join_chunks, fixij, name maps)':
@@ -78,7 +79,22 @@ def generate(rng, tier):
         rl = g.randrange(nlev) if g.chance(0.5) else 0
         if r < 0.12:
             ops.append({'op': 'iterations', 'skip_last': g.chance(0.3)})
-        elif r < 0.3:
+        elif r < 0.24:
+            # read_data(usecheckpoints=True): checkpoint files hold every
+            # variable at the checkpoint iterations
+            chks = sorted({it for rs in cfg['restarts'] if not rs.get('empty')
+                           for it in rs['chk']})
+            if not chks:
+                continue
+            it = g.subset(chks, 0.3, 1.0, nonempty=True)
+            if g.chance(0.3):
+                g.shuffle(it)
+            vs = ([g.pick(tens)] if tens and g.chance(0.4) else
+                  g.subset(avail, 0.2, 0.8, nonempty=True))
+            ops.append({'op': 'read', 'it': it, 'vars': vs, 'rl': rl,
+                        'restart': g.randrange(nres) if g.chance(0.2) else -1,
+                        'skip_last': False, 'chk': True})
+        elif r < 0.4:
             rr = g.randrange(nres)
             its = outs[rr].get(rl, [])
             if not its:
@@ -216,6 +232,8 @@ def execute(run):
             probe('unknown_group_scan')
     if any('strides' in rs for rs in cfg['restarts']):
         fault('stride_change')
+    if any('phase' in rs for rs in cfg['restarts']):
+        fault('phase_offset_outputs')
     if any(rs['numbering'][l] != sorted(rs['numbering'][l])
            for rs in cfg['restarts'] for l in range(len(cfg['levels']))):
         fault('numbering_permuted')
@@ -266,7 +284,20 @@ def execute(run):
             chosen = {}
             absent = []
             earlier_only = []
+            if op.get('chk'):
+                kwargs['usecheckpoints'] = True
+                before = digest(kwargs)
+                probe('checkpoint_read')
             for iit in its:
+                if op.get('chk'):
+                    rs_ok = ([op['restart']] if op['restart'] >= 0 else vis)
+                    cand = [r for r in rs_ok if r in vis
+                            and iit in sim.checkpoints.get(r, [])]
+                    if cand:
+                        chosen[iit] = cand[-1]
+                    else:
+                        absent.append(iit)
+                    continue
                 if op['restart'] >= 0:
                     cand = [op['restart']] if (
                         op['restart'] in vis
@@ -325,7 +356,8 @@ def execute(run):
                     P = sorted({len(cfg['restarts'][r]['boxes'][rl])
                                 for r in set(chosen.values())})
                     viol.append({
-                        'sig': f'read:raised:{name}:{site}', 'op': opi,
+                        'sig': f'read{":chk" if op.get("chk") else ""}:raised'
+                               f':{name}:{site}', 'op': opi,
                         'msg': f'op#{opi} read_data({kwargs}) raised '
                                f'{name}: {e} [chunks per restart read: {P}, '
                                f'classes: '
@@ -380,6 +412,8 @@ def execute(run):
                     nch = len(cfg['restarts'][r]['boxes'][rl])
                     kind, msg = iosim.diff_kind(col[n], exp, ev, iit, rl, r)
                     compared[0] += 1
+                    if op.get('chk'):
+                        probe('checkpoint_arrays_compared')
                     if nch > 1:
                         probe('multi_chunk_read')
                     if nch == 2:
@@ -395,7 +429,8 @@ def execute(run):
                         probe('kd_exact')
                     if kind is not None:
                         viol.append({
-                            'sig': f'read:wrong_cells:{kind}', 'op': opi,
+                            'sig': f'read{":chk" if op.get("chk") else ""}'
+                                   f':wrong_cells:{kind}', 'op': opi,
                             'msg': f'op#{opi} read_data({kwargs}) var {an!r} '
                                    f'it={iit} (restart {r}, {nch} chunks, '
                                    f'class '
